@@ -140,6 +140,21 @@ def figure_lifecycle(ctx, rule='C20-R2'):
         name = e.call[2][0] if tag(e.call) == 'call' and e.call[2] else \
             (e.call[3][0] if tag(e.call) == 'mcall' and e.call[3] else None)
         per_fmt = name is not None and T.contains(name, lambda x: tag(x) == 'lv')
+        lvs = [x for x in T.walk(name) if tag(x) == 'lv'] if name is not None else []
+        stems = [x for x in T.walk(name) if tag(x) == 'p' and ('stem' in x[1] or x[1] in ('fn_out',))] \
+            if name is not None else []
+        exact = False
+        if lvs and stems:
+            st_, lv_ = stems[0], lvs[0]
+            exact = name in (('fstr', (st_, C('.'), lv_)),
+                             ('bin', '+', ('bin', '+', st_, C('.')), lv_),
+                             ('bin', '+', st_, ('bin', '+', C('.'), lv_)),
+                             ('mcall', C('{}.{}'), 'format', (st_, lv_), ()),
+                             ('bin', '%', C('%s.%s'), ('tuple', (st_, lv_))))
+        ctx.check(exact, rule, fq, e.node, e.loc(),
+                  f'the file written is {T.show(name, maxlen=120)}: not exactly "<stem>.<format>" (e.g. a pathlib '
+                  'with_suffix() replaces the part of a dotted stem after its last dot, so another file than the '
+                  'requested one is written)', instance=f'{fq}: file name is <stem>.<format>')
         ctx.check(in_fmt_loop and per_fmt and len(loops) == 1, rule, fq, e.node, e.loc(),
                   'savefig is not executed exactly once per requested format with a per-format file name',
                   instance=f'{fq}: one file per format')
